@@ -1,9 +1,17 @@
 (* C04 — property theorems only.  Each is closed by [exact <lemma>] and followed by
-   Print Assumptions; the statements are pinned here so they cannot be quietly weakened. *)
-From FB Require Import C04.Model C04.Theory.
+   Print Assumptions; the statements are pinned here so they cannot be quietly weakened.
 
-(* apply_diff_option: the complete table.  A result is produced exactly in the four consistent
-   situations, and it is what the action says ... *)
+   Vocabulary (coq/C04/Model.v, Text.v, Theory*.v):
+   apply_option / apply_at / apply_to / diff / read  model the Rust functions apply_diff_option,
+   MappingsDiff::apply_to (apply_at: after the namespace lookup), MappingsDiff::diff and
+   tiny_v2_diff::read; print is our printer of the text form.
+   class_entry n tns k od ot (likewise field_/meth_/param_entry) is the declarative table of ONE key:
+   what the diff entry od (if any) says about the target entry ot (if any) — Ok None = absent
+   afterwards, Err = refused (entry_apply, unfolded by C04_entry_table).
+   cfind / cdfind … look a key up in a map (a list with pairwise distinct keys). *)
+From FB Require Import C04.Model C04.Text C04.Theory C04.Theory2 C04.TextTheory C04.TextTheory2.
+
+(* ---------------- apply_diff_option: the complete table ---------------- *)
 Theorem C04_option_ok_iff : forall (d : action str) (t r : option str),
   apply_option str_eqb d t = Ok r <->
     (d = ANone /\ r = t)
@@ -13,7 +21,6 @@ Theorem C04_option_ok_iff : forall (d : action str) (t r : option str),
 Proof. exact apply_option_ok_iff. Qed.
 Print Assumptions C04_option_ok_iff.
 
-(* ... and it is refused exactly when an addition collides or a stated old value does not match *)
 Theorem C04_option_err_iff : forall (d : action str) (t : option str),
   apply_option str_eqb d t = Err <->
     (exists b x, d = AAdd b /\ t = Some x)
@@ -21,3 +28,176 @@ Theorem C04_option_err_iff : forall (d : action str) (t : option str),
     \/ (exists a b, d = AEdit a b /\ t <> Some a).
 Proof. exact apply_option_err_iff. Qed.
 Print Assumptions C04_option_err_iff.
+
+(* ---------------- one map level (apply_diff_map), for every level ---------------- *)
+(* the result has distinct keys and is, key by key, what the table says; the application is refused
+   exactly when the table refuses some key the diff mentions *)
+Theorem C04_map_level_spec : forall {K D T} (L : level K D T), level_ok L -> forall ds ts,
+  NoDup (map (l_dkey L) ds) -> NoDup (map (l_tkey L) ts) ->
+  match apply_map_L L ds ts with
+  | Ok r => NoDup (map (l_tkey L) r)
+            /\ forall k, entry_apply L k (dfind L k ds) (tfind L k ts) = Ok (tfind L k r)
+  | Err => exists k, In k (map (l_dkey L) ds)
+                     /\ entry_apply L k (dfind L k ds) (tfind L k ts) = Err
+  end.
+Proof. exact @apply_map_spec. Qed.
+Print Assumptions C04_map_level_spec.
+
+(* the table of one key, spelled out: 4 actions x target present / absent *)
+Theorem C04_entry_table : forall {K D T} (L : level K D T) k od ot o,
+  entry_apply L k od ot = Ok o <->
+    (od = None /\ o = ot)
+    \/ (exists d t t', od = Some d /\ ot = Some t /\ l_info L d = ANone /\ l_child L d t = Ok t' /\ o = Some t')
+    \/ (exists d t b t1 t', od = Some d /\ ot = Some t /\ l_info L d = AAdd b
+                            /\ l_chg L t None (Some b) = Ok t1 /\ l_child L d t1 = Ok t' /\ o = Some t')
+    \/ (exists d t a t1, od = Some d /\ ot = Some t /\ l_info L d = ARem a
+                         /\ l_chg L t (Some a) None = Ok t1 /\ o = None)
+    \/ (exists d t a b t1 t', od = Some d /\ ot = Some t /\ l_info L d = AEdit a b
+                              /\ l_chg L t (Some a) (Some b) = Ok t1 /\ l_child L d t1 = Ok t' /\ o = Some t')
+    \/ (exists d b t', od = Some d /\ ot = None /\ l_info L d = AAdd b
+                       /\ l_child L d (l_mk L k b) = Ok t' /\ o = Some t').
+Proof. exact @entry_apply_ok_iff. Qed.
+Print Assumptions C04_entry_table.
+
+(* the old-value check of Names::change_name *)
+Theorem C04_change_name : forall tns l from to l',
+  change_name tns l from to = Ok l' <-> tns <> O /\ nth tns l None = from /\ l' = set_nth tns l to.
+Proof. exact change_name_ok. Qed.
+Print Assumptions C04_change_name.
+
+(* ---------------- Theorem 1: apply is exact, level by level ---------------- *)
+Theorem C04_apply_spec_mappings : forall tns d t,
+  tns <> O -> ms_ns t <> [] -> wf_diff d = true -> NoDup (map ckey (ms_classes t)) ->
+  match apply_at tns d t with
+  | Ok r => apply_ns tns (d_info d) (ms_ns t) = Ok (ms_ns r)
+            /\ doc_apply (d_doc d) (ms_doc t) = Ok (ms_doc r)
+            /\ NoDup (map ckey (ms_classes r))
+            /\ forall k, class_entry (length (ms_ns t)) tns k (cdfind k (d_classes d)) (cfind k (ms_classes t))
+                         = Ok (cfind k (ms_classes r))
+  | Err => apply_ns tns (d_info d) (ms_ns t) = Err
+           \/ doc_apply (d_doc d) (ms_doc t) = Err
+           \/ exists k, In k (map cd_name (d_classes d))
+                        /\ class_entry (length (ms_ns t)) tns k (cdfind k (d_classes d)) (cfind k (ms_classes t)) = Err
+  end.
+Proof. exact apply_at_spec. Qed.
+Print Assumptions C04_apply_spec_mappings.
+
+Theorem C04_apply_spec_class : forall n tns d c,
+  n <> O -> tns <> O -> wf_cdiff d = true ->
+  NoDup (map fkey (c_fields c)) -> NoDup (map mkey (c_methods c)) ->
+  match apply_class n tns d c with
+  | Ok c' => c_names c' = c_names c
+             /\ doc_apply (cd_doc d) (c_doc c) = Ok (c_doc c')
+             /\ NoDup (map fkey (c_fields c')) /\ NoDup (map mkey (c_methods c'))
+             /\ (forall k, field_entry n tns k (fdfind k (cd_fields d)) (ffind k (c_fields c)) = Ok (ffind k (c_fields c')))
+             /\ (forall k, meth_entry n tns k (mdfind k (cd_methods d)) (mfind k (c_methods c)) = Ok (mfind k (c_methods c')))
+  | Err => doc_apply (cd_doc d) (c_doc c) = Err
+           \/ (exists k, In k (map fdkey (cd_fields d))
+                         /\ field_entry n tns k (fdfind k (cd_fields d)) (ffind k (c_fields c)) = Err)
+           \/ (exists k, In k (map mdkey (cd_methods d))
+                         /\ meth_entry n tns k (mdfind k (cd_methods d)) (mfind k (c_methods c)) = Err)
+  end.
+Proof. exact apply_class_spec. Qed.
+Print Assumptions C04_apply_spec_class.
+
+Theorem C04_apply_spec_method : forall n tns d m,
+  wf_mdiff d = true -> NoDup (map pkey (m_params m)) ->
+  match apply_meth n tns d m with
+  | Ok m' => m_desc m' = m_desc m /\ m_names m' = m_names m
+             /\ doc_apply (md_doc d) (m_doc m) = Ok (m_doc m')
+             /\ NoDup (map pkey (m_params m'))
+             /\ forall k, param_entry n tns k (pdfind k (md_params d)) (pfind k (m_params m)) = Ok (pfind k (m_params m'))
+  | Err => doc_apply (md_doc d) (m_doc m) = Err
+           \/ exists k, In k (map pd_index (md_params d))
+                        /\ param_entry n tns k (pdfind k (md_params d)) (pfind k (m_params m)) = Err
+  end.
+Proof. exact apply_meth_spec. Qed.
+Print Assumptions C04_apply_spec_method.
+
+Theorem C04_apply_spec_field : forall d f,
+  match apply_field d f with
+  | Ok f' => f_desc f' = f_desc f /\ f_names f' = f_names f /\ doc_apply (fd_doc d) (f_doc f) = Ok (f_doc f')
+  | Err => doc_apply (fd_doc d) (f_doc f) = Err
+  end.
+Proof. exact apply_field_spec. Qed.
+Print Assumptions C04_apply_spec_field.
+
+Theorem C04_apply_spec_parameter : forall d p,
+  match apply_param d p with
+  | Ok p' => p_index p' = p_index p /\ p_names p' = p_names p /\ doc_apply (pd_doc d) (p_doc p) = Ok (p_doc p')
+  | Err => doc_apply (pd_doc d) (p_doc p) = Err
+  end.
+Proof. exact apply_param_spec. Qed.
+Print Assumptions C04_apply_spec_parameter.
+
+(* untouched entries stay identical (the whole node, with its subtree) *)
+Theorem C04_untouched_class : forall tns d t r k,
+  tns <> O -> ms_ns t <> [] -> wf_diff d = true -> NoDup (map ckey (ms_classes t)) ->
+  apply_at tns d t = Ok r -> cdfind k (d_classes d) = None ->
+  cfind k (ms_classes r) = cfind k (ms_classes t).
+Proof. exact apply_untouched_class. Qed.
+Print Assumptions C04_untouched_class.
+
+Theorem C04_untouched_member : forall n tns d c c',
+  n <> O -> tns <> O -> wf_cdiff d = true ->
+  NoDup (map fkey (c_fields c)) -> NoDup (map mkey (c_methods c)) ->
+  apply_class n tns d c = Ok c' ->
+  (forall k, fdfind k (cd_fields d) = None -> ffind k (c_fields c') = ffind k (c_fields c))
+  /\ (forall k, mdfind k (cd_methods d) = None -> mfind k (c_methods c') = mfind k (c_methods c)).
+Proof. exact apply_untouched_member. Qed.
+Print Assumptions C04_untouched_member.
+
+Theorem C04_untouched_parameter : forall n tns d m m',
+  wf_mdiff d = true -> NoDup (map pkey (m_params m)) ->
+  apply_meth n tns d m = Ok m' ->
+  forall k, pdfind k (md_params d) = None -> pfind k (m_params m') = pfind k (m_params m).
+Proof. exact apply_untouched_param. Qed.
+Print Assumptions C04_untouched_parameter.
+
+(* refusal: Err exactly when the namespace action, the comment action or some key is refused *)
+Theorem C04_apply_refuses_iff : forall tns d t,
+  tns <> O -> ms_ns t <> [] -> wf_diff d = true -> NoDup (map ckey (ms_classes t)) ->
+  apply_at tns d t = Err <->
+    apply_ns tns (d_info d) (ms_ns t) = Err
+    \/ doc_apply (d_doc d) (ms_doc t) = Err
+    \/ exists k, class_entry (length (ms_ns t)) tns k (cdfind k (d_classes d)) (cfind k (ms_classes t)) = Err.
+Proof. exact apply_at_err_iff. Qed.
+Print Assumptions C04_apply_refuses_iff.
+
+(* ---------------- Theorem 2: diff and apply are inverse (known finding F3) ---------------- *)
+Theorem C04_diff_apply_partial : forall A B,
+  inverse_hyps A B -> f3_class A B = false -> inverse_law A B.
+Proof. exact diff_apply_partial. Qed.
+Print Assumptions C04_diff_apply_partial.
+
+Theorem C04_diff_apply_refuted : exists A B, inverse_hyps A B /\ f3_class A B = true /\ ~ inverse_law A B.
+Proof. exact diff_apply_refuted. Qed.
+Print Assumptions C04_diff_apply_refuted.
+
+(* ---------------- Theorem 3: when diff fails ---------------- *)
+Theorem C04_diff_ok_iff : forall A B, wf A = true -> wf B = true ->
+  (exists d, diff A B = Ok d) <-> ms_ns A = ms_ns B /\ named A = true /\ named B = true.
+Proof. exact diff_ok_iff. Qed.
+Print Assumptions C04_diff_ok_iff.
+
+Theorem C04_diff_fails_iff : forall A B, wf A = true -> wf B = true ->
+  diff A B = Err <-> ~ (ms_ns A = ms_ns B /\ named A = true /\ named B = true).
+Proof. exact diff_fails_iff. Qed.
+Print Assumptions C04_diff_fails_iff.
+
+(* ---------------- Theorem 4: the text form ---------------- *)
+Theorem C04_read_print : forall d, textual_diff d = true -> read (print d) = Ok (norm d).
+Proof. exact read_print. Qed.
+Print Assumptions C04_read_print.
+
+Theorem C04_apply_norm : forall d t nsname r,
+  nonempty_diff d = true -> apply_to d t nsname = Ok r -> apply_to (norm d) t nsname = Ok r.
+Proof. exact apply_norm. Qed.
+Print Assumptions C04_apply_norm.
+
+(* non-vacuity *)
+Theorem C04_examples :
+  inverse_hyps ex_A ex_B /\ f3_class ex_A ex_B = false
+  /\ exists d, diff ex_A ex_B = Ok d /\ wf_diff d = true /\ length (d_classes d) = 4%nat.
+Proof. exact inverse_nonvacuous. Qed.
+Print Assumptions C04_examples.
